@@ -1324,7 +1324,13 @@ void rtosc::path_search(const rtosc::Ports& root,
         auto is_less = [](const val_on_2 &p1, const val_on_2 &p2) -> bool {
             return strcmp(p1[0].s, p2[0].s) < 0;
         };
-        std::size_t n_paths_found = pos >> 1;
+        // the echoed query (location, needle) in front is not a result
+        const std::size_t first = reply_with_query ? 2 : 0;
+        rtosc_arg_t* const args_all = args;
+        char* const types_all = types;
+        args += first;
+        types += first;
+        std::size_t n_paths_found = (pos - first) >> 1;
         std::sort((ptr_on_2)args, ((ptr_on_2)(args))+n_paths_found, is_less);
 
         if (opts == path_search_opts::sorted_and_unique_prefix)
@@ -1365,6 +1371,8 @@ void rtosc::path_search(const rtosc::Ports& root,
             // cut off unused paths
             types[(n_paths_found - unused_paths)<<1] = 0;
         }
+        args = args_all;
+        types = types_all;
     }
 }
 
